@@ -35,24 +35,25 @@ THEOREMS = ["Mesa.Steps." + t for t in (
     "C05_most_derived_override_runs_first", "C05_next_body_only_through_super", "C05_not_overridden_only_counter",
     "C05_arguments_unchanged", "C05_run_model_exact", "C05_run_model_terminates", "C05_instances_independent",
     "C05_all_interleavings_count", "C05_class_tables_are_linearisations", "C05_mro_is_c3_linearisation",
-    "C05_single_inheritance_mro_is_the_chain", "C05_each_class_body_once_in_mro_order")]
+    "C05_single_inheritance_mro_is_the_chain", "C05_each_class_body_once_in_mro_order",
+    "C05_nested_calls_are_ordinary_calls", "C05_nested_run_is_ordinary_calls")]
 COUNTS = {"quick": 600, "thorough": 80000}
 EXHAUSTIVE = {"quick": True, "thorough": True}
 TRUSTED = [
     "Python attribute lookup: an instance attribute (`self.step = self._wrapped_step`) shadows the class attribute; `super().step` resolves along the class MRO and never to the instance attribute",
     "the MRO is Python's C3 linearisation (typeobject.c); the model recomputes it (Model/StepMro.lean) and every `cdef` answer compares the two; `object` is left implicit",
-    "step bodies are `record; [super().step(...)]`; metaclasses, `__init_subclass__`, classes that reach Model without calling Model.__init__ and step bodies that re-enter self.step() are not modelled",
+    "step bodies are `record; [sub_model.step()]; [super().step(...)]`; metaclasses, `__init_subclass__`, classes that reach Model without calling Model.__init__ and step bodies that re-enter self.step() are not modelled",
     "a positional-argument mismatch raises TypeError before the callee's body runs",
 ]
 ASSUMPTIONS = ["run_model is only called on models whose step eventually clears `running` (the harness stop rule); otherwise it does not terminate, as specified",
                "Model.__init__ runs exactly once per instance"]
-RULE = ("exhaustive: every chain of depth 0-4 with per level {inherits | overrides x calls-super x takes-args} (781 shapes), each under 3 "
-        "call patterns on two interleaved instances (plain calls / calls with 1-2 positional or keyword arguments / run_model with "
-        "re-arming); exhaustive: every class graph with multiple inheritance over <= 3 classes (each class over any ordered choice of "
+RULE = ("exhaustive: every chain of depth 0-4 with per level {inherits | overrides x calls-super x takes-args} (781 shapes), each under 4 "
+        "call patterns on two or three interleaved instances (plain calls / calls with 1-2 positional or keyword arguments / run_model with "
+        "re-arming / coupled models: the step bodies of one model step the next, two levels deep); exhaustive: every class graph with multiple inheritance over <= 3 classes (each class over any ordered choice of "
         "distinct earlier classes, Model or no base at all; 160 graphs x every choice of the classes that define step; thorough: also <= 4 "
         "classes, 10 400 graphs), every Model subclass instantiated and stepped with / without an argument, run_model on the last; random: chains of "
         "depth 0-6 or (2 in 5) class graphs of 2-7 classes with 0-3 bases (mixins, diamonds, refused definitions), 1-4 instances, 5-25 "
-        "interleaved step/run/rearm/halt ops; "
+        "interleaved step/run/rearm/halt ops and (1 in 8) link / unlink ops that make the bodies of one model step another; "
         "non-trivial = an overriding chain of >= 2 bodies was executed or run_model made >= 2 calls")
 
 _BASE = None
@@ -70,12 +71,10 @@ def base():
                 self.stop_at = stop_at
                 self.execs = 0
                 self.rec = []
+                self.sub = None
 
             def _body(self, depth, args):
-                self.rec.append((depth, self.steps, tuple(args)))
-                self.execs += 1
-                if self.execs >= self.stop_at:
-                    self.running = False
+                body(self, depth, args)
 
         _BASE = Base
     return _BASE
@@ -87,6 +86,12 @@ def body(self, label, args):
     self.execs += 1
     if self.execs >= self.stop_at:
         self.running = False
+    sub = getattr(self, "sub", None)
+    if sub is not None:
+        # a coupled model: this step body steps a sub-model (a nested step() call on another instance)
+        sub.rec = []
+        self.calls.append((sub.idx, sub.rec))
+        sub.step()
 
 
 def build_mi_class(k, bases, level, classes):
@@ -153,6 +158,7 @@ class Impl:
 
         self.Model = Model
         self.mclasses, self.mlevels = [Model], [None]  # `cdef` classes by id; 0 = mesa.Model
+        self.calls = []  # nested step() calls of the current op, in the order they start: (instance, its records)
 
     def all(self):
         return ("steps=" + ",".join(str(m.steps) for m in self.insts)
@@ -161,6 +167,9 @@ class Impl:
     @staticmethod
     def fmt(rec):
         return ",".join(f"{d}@{s}" + ("/" + ".".join(map(str, a)) if a else "") for d, s, a in rec)
+
+    def fmt_subs(self, subs):
+        return "" if not subs else " sub=" + ";".join(f"{j}>{self.fmt(r)}" for j, r in subs)
 
     def snapshot(self):
         return [(m.steps, bool(m.running), m.execs, m.stop_at) for m in self.insts]
@@ -203,8 +212,9 @@ class Impl:
                 return "bad-op"
             cls = self.mclasses[c]
             m = cls(seed=0)
-            m.stop_at, m.execs, m.rec = stop, 0, []
+            m.stop_at, m.execs, m.rec, m.sub = stop, 0, [], None
             self.insts.append(m)
+            m.idx, m.calls = len(self.insts) - 1, self.calls
             self.cls_of.append(("m", c))
             # the part of Python's MRO that can run: in front of Model
             front = []
@@ -219,6 +229,7 @@ class Impl:
             if c >= len(self.classes):
                 return "bad-op"  # dangling reference (shrinker only); the driver says the same
             self.insts.append(self.classes[c](stop))
+            self.insts[-1].idx, self.insts[-1].calls = len(self.insts) - 1, self.calls
             self.cls_of.append(c)
             self.trace.append(("new", len(self.insts) - 1, self.levels[c], stop, self.snapshot()))
             return f"ok inst={len(self.insts) - 1} || {self.all()}"
@@ -228,6 +239,14 @@ class Impl:
         m = self.insts[i]
         before = self.snapshot()
         m.rec = []
+        del self.calls[:]
+        if k == "link":
+            j = None if w[2] == "-" else int(w[2])
+            if j is not None and not (i < j < len(self.insts)):
+                return "bad-op"
+            m.sub = None if j is None else self.insts[j]
+            self.trace.append(("link", i, before, self.snapshot()))
+            return f"ok || {self.all()}"
         if k == "step":
             args = [int(x) for x in w[2:]]
             try:
@@ -240,8 +259,9 @@ class Impl:
                 assert r is None
             except TypeError:
                 out = "err Type"
-            self.trace.append(("step", i, args, out, list(m.rec), before, self.snapshot()))
-            return f"{out} log={self.fmt(m.rec)} || {self.all()}"
+            subs = [(j, list(r)) for j, r in self.calls]
+            self.trace.append(("step", i, args, out, list(m.rec), subs, before, self.snapshot()))
+            return f"{out} log={self.fmt(m.rec)}{self.fmt_subs(subs)} || {self.all()}"
         if k == "run":
             # generated programs terminate on the correct code; the cap makes them terminate on ANY code
             # (a run_model that keeps stepping a stopped model must show as a failure, not hang the check)
@@ -264,8 +284,9 @@ class Impl:
                 return f"err Runaway || {self.all()}"
             finally:
                 m.step = orig
-            self.trace.append(("run", i, list(m.rec), before, self.snapshot()))
-            return f"ok log={self.fmt(m.rec)} || {self.all()}"
+            subs = [(j, list(r)) for j, r in self.calls]
+            self.trace.append(("run", i, list(m.rec), subs, before, self.snapshot()))
+            return f"ok log={self.fmt(m.rec)}{self.fmt_subs(subs)} || {self.all()}"
         if k == "rearm":
             m.running = True
             m.stop_at = m.execs + int(w[2])
@@ -303,17 +324,22 @@ def has_body(levels):
 
 
 def pattern(levels, which):
-    """three call patterns on two instances of the same class (interleaved)"""
+    """four call patterns on two or three instances of the same class (interleaved; the fourth nests the calls)"""
     L = ["scenario steps", fmt_class(levels)]
     hb = has_body(levels)
     if which == 0:
         L += ["new 0 9", "new 0 9", "step 0", "step 1", "step 0", "step 0", "step 1"]
     elif which == 1:
         L += ["new 0 9", "new 0 9", "step 0 5", "step 1", "step 1 3 7", "step 0 4", "step 0", "step 1 1 2", "step 0 6 8"]
-    else:
+    elif which == 2:
         L += ["new 0 3", "new 0 2", "step 1"]
         L += ["run 0", "run 0", "run 1", "rearm 0 2", "run 0", "step 1", "rearm 1 1", "run 1"] if hb else ["halt 0", "run 0", "step 1", "halt 1", "run 1"]
         L += ["step 0"]
+    else:
+        # coupled models: the bodies of model 0 step model 1, whose bodies step model 2
+        L += ["new 0 9", "new 0 9", "new 0 4", "step 1", "link 0 1", "step 0", "step 1", "link 1 2", "step 0", "step 0 5", "step 2"]
+        L += ["rearm 0 2", "run 0"] if hb else ["halt 0", "run 0"]
+        L += ["link 0 -", "step 0", "step 1"]
     return core.Scenario(L, {"exhaustive": True})
 
 
@@ -380,7 +406,7 @@ def mixed_levels(graph):
 
 
 def builtin_corpus():
-    res = [pattern(list(sh), w) for sh in all_shapes() for w in range(3)]
+    res = [pattern(list(sh), w) for sh in all_shapes() for w in range(4)]
     for g in all_class_graphs(3):
         # every choice of which classes define step (those that do call super), plus one assignment with
         # argument-taking and non-super-calling bodies
@@ -465,6 +491,11 @@ def gen_ops(R, insts):
         i = R.randrange(ninst)
         x = insts[i]
         k = R.random()
+        if ninst >= 2 and R.random() < 0.12:
+            # couple two models: from now on the step bodies of the earlier one step the later one (or uncouple)
+            a = R.randrange(ninst - 1)
+            L.append(f"link {a} {R.randrange(a + 1, ninst)}" if R.random() < 0.8 else f"link {a} -")
+            continue
         if k < 0.55:
             na = R.choice([0, 0, 0, 1, 1, 2])
             L.append(" ".join(["step", str(i)] + [str(R.randrange(0, 9)) for _ in range(na)]))
@@ -553,13 +584,33 @@ def oracle(sc, obs):
             continue
         i = ev[1]
         before, after = ev[-2], ev[-1]
+        subs = ev[-3] if k in ("step", "run") else []
+        nested = {}
+        for j, r in subs:
+            nested.setdefault(j, []).append(r)
         for j, (b, a) in enumerate(zip(before, after)):
-            if j != i and b != a:
+            if j != i and j not in nested and b != a:
                 bad.append(f"frame: `{k} {i}` changed model {j}: {b} -> {a}")
+        # a step() made from inside another model's step body is a step() like any other: counted once, on its own
+        # model, before that model's user code
+        for j, recs in nested.items():
+            if j == i:
+                bad.append(f"nested: model {i} was re-entered from its own step")
+                continue
+            if after[j][0] != before[j][0] + len(recs):
+                bad.append(f"count: {len(recs)} nested step() call(s) on model {j} during `{k} {i}` took its steps from "
+                           f"{before[j][0]} to {after[j][0]}")
+            for n, r in enumerate(recs):
+                r = to_depths(labels_of[j], r, bad)
+                for d, sj, _a in r:
+                    if sj != before[j][0] + n + 1:
+                        bad.append(f"before-user-code: body of level {d} of model {j}, in its nested call number {n + 1} during `{k} {i}`, "
+                                   f"saw steps={sj}; model {j} stood at {before[j][0]} before")
+                bad += expected_chain_ok(levels_of[j], r, (), "ok")
         s0, r0, e0, stop0 = before[i]
         s1, r1, e1, _ = after[i]
         if k == "step":
-            _, _, args, out, rec, _, _ = ev
+            _, _, args, out, rec, _, _, _ = ev
             rec = to_depths(labels_of[i], rec, bad)
             if s1 != s0 + 1:
                 bad.append(f"count: one step() call took steps from {s0} to {s1}")
@@ -568,7 +619,7 @@ def oracle(sc, obs):
                     bad.append(f"before-user-code: body of level {d} saw steps={s}, the call started at {s0}")
             bad += expected_chain_ok(levels_of[i], rec, args, out)
         elif k == "run":
-            _, _, rec, _, _ = ev
+            _, _, rec, _, _, _ = ev
             rec = to_depths(labels_of[i], rec, bad)
             calls = s1 - s0
             if not r0:
@@ -589,7 +640,7 @@ def oracle(sc, obs):
                 per.setdefault(s, []).append((d, s, a))
             for s, r in per.items():
                 bad += expected_chain_ok(levels_of[i], r, (), "ok")
-        elif k in ("rearm", "halt"):
+        elif k in ("rearm", "halt", "link"):
             if s1 != s0:
                 bad.append(f"count: `{k}` changed steps")
     return bad
@@ -623,6 +674,8 @@ def tags(sc, obs):
             elif ev[2] and not ev[2][0][0]:
                 yield "shape:inherited-from-intermediate"
         elif ev[0] == "step":
+            if ev[5]:
+                yield "step:nested-calls:" + str(min(len(ev[5]), 4)) + ("+" if len(ev[5]) >= 4 else "")
             yield "step:" + ("args" if ev[2] else "noargs") + (":TypeError" if ev[3] != "ok" else "")
             if len(ev[4]) >= 2:
                 yield "step:super-chain"
